@@ -12,6 +12,7 @@ import (
 	"sort"
 	"strconv"
 	"strings"
+	"time"
 
 	"github.com/NethermindEth/juno/adapters/sn2core"
 	"github.com/NethermindEth/juno/blockchain/networks"
@@ -114,6 +115,12 @@ func (r *runner) fixtures() {
 	fxs := loadFixtures()
 	stats := map[string]int{}
 	rng := hx.NewRNG(r.c.Seed ^ 0xf1f1)
+	start := time.Now()
+	// quick tier: rotate the starting fixture with the seed so that the budgeted sweep covers all of them over seeds
+	if n := len(fxs); n > 0 && !r.c.Thorough() {
+		k := int(r.c.Seed % uint64(n))
+		fxs = append(append([]fixture{}, fxs[k:]...), fxs[:k]...)
+	}
 	for i := range fxs {
 		fx := &fxs[i]
 		net := fixtureNets[fx.Net]
@@ -232,9 +239,12 @@ func (r *runner) fixtures() {
 			}
 		})
 		sort.Strings(names)
-		limit := 40
+		limit := 12
 		if r.c.Thorough() {
 			limit = len(names)
+		} else if time.Since(start) > 14*time.Second {
+			limit = 0 // quick tier: the sweep over fixtures has a time budget; the correspondence part always runs
+			stats["tamper:sweep-skipped(time budget)"]++
 		}
 		for i := len(names) - 1; i > 0; i-- {
 			j := rng.Intn(i + 1)
@@ -267,6 +277,13 @@ func (r *runner) fixtures() {
 			}()
 			r.c.Count("fixture-tamper/"+id+"/"+name, true)
 			stats["tamper:probes"]++
+			if verr != nil && strings.HasPrefix(verr.Error(), "panic:") && nilPricePanic(t) {
+				r.c.Violation(nilPriceClass, fmt.Sprintf("%s (%s) tampering %s: core.VerifyBlockHash panics: %v", id, verStr, name, verr),
+					replayCase{Kind: "fixture", Detail: id, Tamper: name}, false)
+			} else if verr != nil && strings.HasPrefix(verr.Error(), "panic:") {
+				r.c.Violation("fixture:tamper-panic:"+tamperKind(name), fmt.Sprintf("%s (%s) tampering %s: %v", id, verStr, name, verr),
+					replayCase{Kind: "fixture", Detail: id, Tamper: name}, false)
+			}
 			if verr == nil {
 				r.c.Violation("fixture:tamper-accepted:"+tamperKind(name),
 					fmt.Sprintf("%s (%s): tampering %s passes core.VerifyBlockHash", id, verStr, name), replayCase{Kind: "fixture", Detail: id, Tamper: name}, false)
